@@ -85,7 +85,7 @@ RULE = ("case = random 4-5 tensor network x layout {split, flat} x class {script
         "offset 0..len(entry) (wrapped file), every file-system call boundary (audit hook), RLIMIT_FSIZE offsets, "
         "a sample in completely fresh interpreters; one evaluation = one crash point with its later readers; "
         "non-trivial = the writer really died at that point")
-BUDGET = {"quick": 900, "thorough": 1800}
+BUDGET = {"quick": 900, "thorough": 1500}
 
 SCENARIOS = ("new", "overwrite", "improved", "fresh-dir")
 
@@ -108,15 +108,17 @@ def _flops(q, tree):
 
 
 def _score(q, cls, ans):
-    """the score the real code will store for this scripted answer"""
-    if cls == "rg":
-        return float(ans["flops"])
+    """the score (and, as a side effect, the linear path) the real code will store for this
+    scripted answer"""
     from cotengra.core import ContractionTree
     n = len(q["inputs"])
     t = ContractionTree.from_path([tuple(x) for x in q["inputs"]], tuple(q["output"]), dict(q["sizes"]),
                                   ssa_path=gen.tree_to_ssa(ans["tree"], n))
     for ix in ans["sliced"]:
         t.remove_ind_(ix)
+    ans["path"] = [list(map(int, s)) for s in t.get_path()]
+    if cls == "rg":
+        return float(ans["flops"])
     return float(t.get_score())
 
 
@@ -267,26 +269,36 @@ class CaseRun:
             return None
         try:
             con = pickle.loads(bytes(b))
-            st = U.path_struct(U._as_query(qobj), con["path"])
+            pa = [list(map(int, s)) for s in con["path"]]
             sl = sorted(con["sliced_inds"])
             sc = float(con["score"])
         except Exception:  # noqa: BLE001
             return None
-        return ident(ids, qobj, st, sl, sc)
+        return ident(ids, qobj, pa, sl, sc)
 
 
-def ident(ids, qobj, struct, sliced, score):
-    """id of a complete entry = (contraction, tree structure, sliced indices, stored score)"""
-    return ids.setdefault(json.dumps([qobj["inputs"], struct, sorted(sliced), "%.9g" % score]), len(ids) + 1)
+def ident(ids, qobj, path, sliced, score):
+    """id of a complete entry = its content (path, sliced indices, score) -- a function of the
+    file's bytes, as the model's codec is (two contractions may store byte-identical entries)"""
+    return ids.setdefault(json.dumps([path, sorted(sliced), "%.9g" % score]), len(ids) + 1)
 
 
 def ident_ans(ids, qobj, ans):
-    return ident(ids, qobj, ans["struct"], ans["sliced"], ans["score"])
+    return ident(ids, qobj, ans["path"], ans["sliced"], ans["score"])
 
 
 def ident_obs(ids, qobj, o):
-    """the entry a reader ended up with: its returned tree + the score its DiskDict holds"""
-    return ident(ids, qobj, o["struct"], o["tree"]["sliced"], o["stored"]["score"] if o["stored"] else -1.0)
+    """the entry a reader ended up with: what its DiskDict holds for the key after the call"""
+    st = o["stored"]
+    if not st:
+        return -1
+    return ident(ids, qobj, st["path"], st["sliced"], st["score"])
+
+
+def tree_matches_entry(o):
+    """the tree handed back is the tree of the entry the process holds (structure + slicing)"""
+    st = o["stored"]
+    return bool(st) and st["struct"] == o["struct"] and st["sliced"] == o["tree"]["sliced"]
 
 
 def model_ops(events):
@@ -324,8 +336,9 @@ def oracle(cr, ids, r1, r2, have_old):
             exc = o["outcome"].split(":")[-1]
             return ("reader-raises", {"who": name, "exc": exc, "msg": o.get("msg")})
         t = o["tree"]
-        if not t["complete"] or t["inputs"] != q["inputs"] or t["output"] != q["output"]:
-            return ("wrong-tree", {"who": name, "tree": t})
+        if not t["complete"] or t["inputs"] != q["inputs"] or t["output"] != q["output"] or \
+                not tree_matches_entry(o):
+            return ("wrong-tree", {"who": name, "tree": t, "stored": o["stored"]})
     got1 = ident_obs(ids, q, o1)
     if o1["searches"] == 0:
         if got1 not in (id_old, id_new):
@@ -340,7 +353,8 @@ def oracle(cr, ids, r1, r2, have_old):
         if o["outcome"] != "ok":
             return ("reader-raises", {"who": "other-entry", "exc": o["outcome"].split(":")[-1],
                                       "msg": o.get("msg")})
-        if o["searches"] != 0 or ident_obs(ids, other["q"], o) != ident_ans(ids, other["q"], other["ans"]):
+        if o["searches"] != 0 or ident_obs(ids, other["q"], o) != ident_ans(ids, other["q"], other["ans"]) \
+                or not tree_matches_entry(o):
             return ("lost-entry", {"other": other["q"]["inputs"], "searches": o["searches"]})
     return None
 
